@@ -1,10 +1,302 @@
 import XvcPipeline.Sched
-def main (_args : List String) : IO UInt32 := do
+import XvcPipeline.Graph
+/-!
+  Line-protocol driver of the scheduler model (`schedmodel sched-validate`).
+
+  Input, per case (lib/sched_common.py `driver_input`):
+      case <id>
+      n <n> pool <k>
+      step <i> <name> <when>                  when = by_dependencies | always | never
+      dep <i> step <j> | dep <i> file <path> | dep <i> glob <pattern>
+      out <j> <path>
+      trace-begin
+      <lines of the XVC_VERIF_TRACE file of one `xvc pipeline run`>    (format: pipeline/src/pipeline/verif.rs)
+      trace-end
+  Answer: one line, `valid steps=<k> final=<..> rules=<..>` or `invalid at=<seq> reason=<..>`.
+
+  A trace is valid when
+    * the logged edge list (E lines) equals `buildGraph` of the records, the logged run conditions (R lines) equal
+      `Gen.runConditions`, the logged pool size equals the configured one;
+    * the sequence of labels derived from the H / B / S / D lines is executed by `Sched.stepL` from `Sched.init`
+      without ever returning `none` (so, by `Sched.stepL_sound`, it is a run of `Next`), where a handler step is
+      placed at its slot operation (S line) if it has one and otherwise immediately before the H line that publishes
+      its result (sound because the guards that read the bulletin are monotone: `C10_pub_monotone`);
+      an unobserved process exit is inserted before the handler step that reports it;
+    * every logged state, delivered state and slot count equals the model's;
+    * at the end every step thread has finished and the bulletin map equals the local states.
+-/
+open Sched Sched.Gen
+
+structure Entry where
+  seq : Nat
+  kind : String
+  step : Nat
+  st : St := default
+  ev : Ev := default
+  op : String := ""
+  slots : Nat := 0
+deriving Inhabited
+
+structure Case where
+  id : String := ""
+  n : Nat := 0
+  pool : Nat := 0
+  names : List (String × Nat) := []
+  whens : List (Nat × String) := []
+  recs : List (Nat × DepRec) := []
+  outs : List (Nat × String) := []
+  trace : Array String := #[]
+
+def parseState (s : String) : Option (St × Ev) :=
+  match s.splitOn "(" with
+  | [a, b] =>
+    let bl := b.toList
+    let bl := if bl.take 4 == "From".toList then bl.drop 4 else bl
+    let bl := bl.takeWhile (· != ')')
+    match St.ofName a, Ev.ofName (String.ofList bl) with
+    | some x, some e => some (x, e)
+    | _, _ => none
+  | _ => none
+
+def whenOf (s : String) : Option Invalidate :=
+  if s == "by_dependencies" then some .ByDependencies
+  else if s == "always" then some .Always
+  else if s == "never" then some .Never
+  else none
+
+def lookupS (l : List (String × Nat)) (k : String) : Option Nat := (l.find? (fun p => p.1 == k)).map (·.2)
+
+def insertSorted (x : Nat) : List Nat → List Nat
+  | [] => [x]
+  | y :: ys => if x < y then x :: y :: ys else if x == y then y :: ys else y :: insertSorted x ys
+def sortDedup (l : List Nat) : List Nat := l.foldr insertSorted []
+
+def boolStr (b : Bool) : String := if b then "true" else "false"
+
+def showSt (p : St × Ev) : String := s!"{p.1.name}(From{p.2.name})"
+
+/-- validate one case; returns the answer line -/
+def validate (cs : Case) : String := Id.run do
+  let pl : Pipeline := {
+    n := cs.n,
+    recs := fun i => (cs.recs.filter (fun p => p.1 == i)).map (·.2),
+    outs := fun j => (cs.outs.filter (fun p => p.1 == j)).map (·.2) }
+  let whenI : Nat → Invalidate := fun i =>
+    match (cs.whens.find? (fun p => p.1 == i)).bind (fun p => whenOf p.2) with
+    | some w => w
+    | none => .ByDependencies
+  let noDeps : Nat → Bool := fun i => (pl.recs i).isEmpty
+  let c : Cfg := { n := cs.n, deps := buildGraph pl, pool := cs.pool,
+                   rc := fun i => runConditions (whenI i) (noDeps i), noDeps := noDeps }
+  -- pass 1: tokens, entity names
+  let mut ents : List (String × Nat) := []
+  let mut entries : Array Entry := #[]
+  let mut edges : List (Nat × Nat) := []
+  let mut rcs : List (Nat × String) := []
+  let mut poolLogged : Option Nat := none
+  for line in cs.trace do
+    let t := line.trimAscii.toString.splitOn " "
+    match t with
+    | [_, "V", ent, name] =>
+      match lookupS cs.names name with
+      | some i => ents := (ent, i) :: ents
+      | none => return s!"invalid at=0 reason=unknown-step-name:{name}"
+    | _ => pure ()
+  for line in cs.trace do
+    let t := line.trimAscii.toString.splitOn " "
+    match t with
+    | [_, "V", _, _] => pure ()
+    | [sq, "E", a, b] =>
+      match lookupS ents a, lookupS ents b with
+      | some i, some j => edges := (i, j) :: edges
+      | _, _ => return s!"invalid at={sq} reason=edge-of-unknown-step"
+    | [sq, "R", a, r1, r2, r3, r4] =>
+      match lookupS ents a with
+      | some i => rcs := (i, s!"{r1} {r2} {r3} {r4}") :: rcs
+      | none => return s!"invalid at={sq} reason=R-of-unknown-step"
+    | [_, "P", k] => poolLogged := k.toNat?
+    | [sq, k, a, s, sl] =>
+      if k == "H" || k == "D" then
+        match sq.toNat?, lookupS ents a, parseState s, sl.toNat? with
+        | some q, some i, some (x, e), some n => entries := entries.push { seq := q, kind := k, step := i, st := x, ev := e, slots := n }
+        | _, _, _, _ => return s!"invalid at={sq} reason=unparsable-line"
+      else if k == "S" then
+        match sq.toNat?, lookupS ents a, sl.toNat? with
+        | some q, some i, some n => entries := entries.push { seq := q, kind := k, step := i, op := s, slots := n }
+        | _, _, _ => return s!"invalid at={sq} reason=unparsable-line"
+      else return s!"invalid at={sq} reason=unknown-kind:{k}"
+    | [sq, "B", a, s] =>
+      match sq.toNat?, lookupS ents a, parseState s with
+      | some q, some i, some (x, e) => entries := entries.push { seq := q, kind := "B", step := i, st := x, ev := e }
+      | _, _, _ => return s!"invalid at={sq} reason=unparsable-line"
+    | _ => return s!"invalid at=0 reason=unparsable-line:{line}"
+  -- static part: graph, run conditions, pool
+  if ents.length != cs.n then return s!"invalid at=0 reason=graph-nodes:{ents.length}-expected:{cs.n}"
+  for i in List.range cs.n do
+    let logged := sortDedup ((edges.filter (fun p => p.1 == i)).map (·.2))
+    let model := sortDedup (c.deps i)
+    if logged != model then
+      return s!"invalid at=0 reason=edges-of-step-{i}:logged={logged}:buildGraph={model}"
+    let r := c.rc i
+    let want := s!"{boolStr r.never} {boolStr r.always} {boolStr r.ignore_broken_dep_steps} {boolStr r.ignore_missing_outputs}"
+    match rcs.find? (fun p => p.1 == i) with
+    | some (_, got) => if got != want then return s!"invalid at=0 reason=run-conditions-of-step-{i}:logged={got}:model={want}"
+    | none => return s!"invalid at=0 reason=no-run-conditions-logged-for-step-{i}"
+  if poolLogged != some cs.pool then return s!"invalid at=0 reason=pool-size:logged={poolLogged}:configured={cs.pool}"
+  -- dynamic part
+  let mut σ := init c
+  let mut nsteps := 0
+  let mut died : List Nat := []
+  let mut rules : List (String × Nat) := []
+  let bump := fun (rules : List (String × Nat)) (k : String) =>
+    if rules.any (fun p => p.1 == k) then rules.map (fun p => if p.1 == k then (p.1, p.2 + 1) else p) else rules ++ [(k, 1)]
+  -- the event by which step `s` enters the state published by its next H line after index `k`
+  let nextEv := fun (k : Nat) (s : Nat) => Id.run do
+    let mut r : Option (String × Ev) := none
+    for j in List.range entries.size do
+      if j > k && r.isNone then
+        let e := entries[j]!
+        if e.step == s && (e.kind == "H" || e.kind == "D") then r := some (e.kind, e.ev)
+    return r
+  for k in List.range entries.size do
+    let en := entries[k]!
+    let s := en.step
+    -- apply a handler step (inserting the unobserved process exit it reports)
+    let doHandler := fun (σ : Sys) (e : Ev) =>
+      let σ1 := match e with
+        | .ProcessCompletedSuccessfully => if σ.proc s = .running then (stepL c σ (.procExit s true)).getD σ else σ
+        | .ProcessReturnedNonZero => if σ.proc s = .running then (stepL c σ (.procExit s false)).getD σ else σ
+        | _ => σ
+      stepL c σ1 (.handler s e)
+    if en.kind == "H" then
+      if died.contains s then return s!"invalid at={en.seq} reason=state-published-after-thread-death"
+      if σ.loc s != en.st || σ.frm s != en.ev then
+        match doHandler σ en.ev with
+        | some σ' => σ := σ'; nsteps := nsteps + 1; rules := bump rules en.ev.name
+        | none => return s!"invalid at={en.seq} reason=handler-not-enabled:step={s}:from={showSt (σ.loc s, σ.frm s)}:event={en.ev.name}"
+      if σ.loc s != en.st || σ.frm s != en.ev then
+        return s!"invalid at={en.seq} reason=state-differs:step={s}:logged={showSt (en.st, en.ev)}:model={showSt (σ.loc s, σ.frm s)}"
+      match stepL c σ (.publish s) with
+      | some σ' => σ := σ'; nsteps := nsteps + 1; rules := bump rules "publish"
+      | none => return s!"invalid at={en.seq} reason=publish-not-enabled:step={s}:state={showSt (en.st, en.ev)}"
+    else if en.kind == "B" then
+      match σ.chan s with
+      | x :: _ =>
+        if x != (en.st, en.ev) then
+          return s!"invalid at={en.seq} reason=bulletin-out-of-order:step={s}:logged={showSt (en.st, en.ev)}:model-channel-head={showSt x}"
+      | [] => return s!"invalid at={en.seq} reason=bulletin-delivers-unsent-state:step={s}:logged={showSt (en.st, en.ev)}"
+      match stepL c σ (.deliver s) with
+      | some σ' => σ := σ'; nsteps := nsteps + 1; rules := bump rules "deliver"
+      | none => return s!"invalid at={en.seq} reason=deliver-not-enabled"
+    else if en.kind == "D" then
+      if σ.loc s != en.st then
+        return s!"invalid at={en.seq} reason=state-differs-at-death:step={s}:logged={en.st.name}:model={(σ.loc s).name}"
+      match stepL c σ (.die s) with
+      | some σ' => σ := σ'; nsteps := nsteps + 1; died := s :: died; rules := bump rules "die"
+      | none => return s!"invalid at={en.seq} reason=die-not-enabled:step={s}"
+    else -- S
+      if en.op == "acquire" then
+        match doHandler σ .StartProcess with
+        | some σ' => σ := σ'; nsteps := nsteps + 1; rules := bump rules "StartProcess"
+        | none => return s!"invalid at={en.seq} reason=slot-acquired-but-start-not-enabled:step={s}:model-slots={σ.slots}:state={showSt (σ.loc s, σ.frm s)}"
+      else if en.op == "full" then
+        if σ.loc s == .WaitingToRun && σ.frm s == .ProcessPoolFull && σ.sent s then
+          -- poll inside s_waiting_to_run_f_process_pool_full: no step, the guard of `start` must be false
+          if σ.slots != 0 then return s!"invalid at={en.seq} reason=pool-reported-full-with-free-slots:model-slots={σ.slots}"
+        else
+          match doHandler σ .ProcessPoolFull with
+          | some σ' => σ := σ'; nsteps := nsteps + 1; rules := bump rules "ProcessPoolFull"
+          | none => return s!"invalid at={en.seq} reason=pool-full-not-enabled:step={s}:model-slots={σ.slots}:state={showSt (σ.loc s, σ.frm s)}"
+      else if en.op == "release" then
+        if died.contains s then pure ()    -- the release was part of the `die` step
+        else
+          match nextEv k s with
+          | some ("H", e) =>
+            match doHandler σ e with
+            | some σ' => σ := σ'; nsteps := nsteps + 1; rules := bump rules e.name
+            | none => return s!"invalid at={en.seq} reason=slot-released-but-exit-not-enabled:step={s}:event={e.name}:state={showSt (σ.loc s, σ.frm s)}"
+          | _ => return s!"invalid at={en.seq} reason=slot-released-without-a-following-state:step={s}"
+      else return s!"invalid at={en.seq} reason=unknown-slot-operation:{en.op}"
+      if σ.slots != en.slots then
+        return s!"invalid at={en.seq} reason=slot-counter-differs:logged={en.slots}:model={σ.slots}"
+  -- final
+  for i in List.range cs.n do
+    if !σ.fin i then return s!"invalid at=end reason=step-{i}-did-not-finish:model-state={showSt (σ.loc i, σ.frm i)}"
+    if !(σ.chan i).isEmpty then return s!"invalid at=end reason=undelivered-states-of-step-{i}"
+    if σ.pub i != (σ.loc i, σ.frm i) then return s!"invalid at=end reason=bulletin-differs-from-local-state-of-step-{i}"
+  if σ.slots != cs.pool then return s!"invalid at=end reason=slots-not-returned:model-slots={σ.slots}"
+  let final := ",".intercalate ((List.range cs.n).map (fun i => s!"{i}:{(σ.loc i).name}"))
+  let rs := ",".intercalate (rules.map (fun p => s!"{p.1}:{p.2}"))
+  return s!"valid steps={nsteps} final={final} rules={rs}"
+
+def parseCaseLine (cs : Case) (line : String) : Case :=
+  match line.trimAscii.toString.splitOn " " with
+  | ["case", id] => { cs with id := id }
+  | ["n", n, "pool", k] => { cs with n := n.toNat?.getD 0, pool := k.toNat?.getD 0 }
+  | ["step", i, name, w] =>
+    match i.toNat? with
+    | some i => { cs with names := (name, i) :: cs.names, whens := (i, w) :: cs.whens }
+    | none => cs
+  | ["dep", i, "step", j] =>
+    match i.toNat?, j.toNat? with
+    | some i, some j => { cs with recs := cs.recs ++ [(i, DepRec.step j)] }
+    | _, _ => cs
+  | ["dep", i, "file", p] =>
+    match i.toNat? with
+    | some i => { cs with recs := cs.recs ++ [(i, DepRec.file p)] }
+    | none => cs
+  | ["dep", i, "glob", p] =>
+    match i.toNat? with
+    | some i => { cs with recs := cs.recs ++ [(i, DepRec.glob p)] }
+    | none => cs
+  | ["dep", i, "other"] =>
+    match i.toNat? with
+    | some i => { cs with recs := cs.recs ++ [(i, DepRec.other)] }
+    | none => cs
+  | ["out", j, p] =>
+    match j.toNat? with
+    | some j => { cs with outs := cs.outs ++ [(j, p)] }
+    | none => cs
+  | _ => cs
+
+/-- `schedmodel acyclic`: one graph per line `n e=a>b,c>d` -> `acyclic` | `cycle` (model-level cycle test) -/
+def acyclicLine (line : String) : String :=
+  match line.trimAscii.toString.splitOn " " with
+  | [n, es] =>
+    let n := n.toNat?.getD 0
+    let pairs := ((es.drop 2).toString.splitOn ",").filterMap (fun e =>
+      match e.splitOn ">" with
+      | [a, b] => match a.toNat?, b.toNat? with
+        | some a, some b => some (a, b)
+        | _, _ => none
+      | _ => none)
+    let deps := fun i => (pairs.filter (fun p => p.1 == i)).map (·.2)
+    if acyclic n deps then "acyclic" else "cycle"
+  | _ => "bad-line"
+
+partial def loopValidate (stdin stdout : IO.FS.Stream) (cs : Case) (inTrace : Bool) : IO Unit := do
+  let line ← stdin.getLine
+  if line.isEmpty then return ()
+  let l := line.trimAscii.toString
+  if inTrace then
+    if l == "trace-end" then
+      stdout.putStrLn (validate cs)
+      stdout.flush
+      loopValidate stdin stdout {} false
+    else loopValidate stdin stdout { cs with trace := cs.trace.push l } true
+  else if l == "trace-begin" then loopValidate stdin stdout cs true
+  else loopValidate stdin stdout (parseCaseLine cs l) false
+
+partial def loopAcyclic (stdin stdout : IO.FS.Stream) : IO Unit := do
+  let line ← stdin.getLine
+  if line.isEmpty then return ()
+  stdout.putStrLn (acyclicLine line)
+  loopAcyclic stdin stdout
+
+def main (args : List String) : IO UInt32 := do
   let stdin ← IO.getStdin
   let stdout ← IO.getStdout
-  let mut go := true
-  while go do
-    let line ← stdin.getLine
-    if line.isEmpty then go := false
-    else if line.trimAscii.toString == "trace-end" then stdout.putStrLn "valid stub"
-  return 0
+  match args with
+  | ["sched-validate"] => loopValidate stdin stdout {} false; return 0
+  | ["acyclic"] => loopAcyclic stdin stdout; return 0
+  | _ => IO.eprintln "usage: schedmodel sched-validate | acyclic"; return 2
